@@ -66,6 +66,11 @@ DIRECTED = [
     # an explicit zero (and an explicit value equal to the implicit one) after other values: "= 0" is a value like any other
     ("enum Zero { Z_HIGH = 5, Z_NONE = 0, Z_LOW, Z_MID, Z_SAME = 3, Z_NEG = -3, Z_ZERO2 = 0, Z_ONE, Z_EXPR = Z_ONE - 1, Z_LAST };",
      ["Z_HIGH", "Z_NONE", "Z_LOW", "Z_MID", "Z_SAME", "Z_NEG", "Z_ZERO2", "Z_ONE", "Z_EXPR", "Z_LAST"]),
+    # integer division truncates toward zero (C++ [expr.mul]): negative inexact quotients of literals and of members
+    ("enum Trunc { T_LOW = -7/2, T_MID, T_HIGH = (3-10)/2, T_TOP = 7/-2, T_PEAK, T_POS = 7/2, T_MIX = -7/2*2, T_SUB = 1-7/2, "
+     "T_SEVEN = 7, T_MEM = -T_SEVEN/2, T_MEM2 = (1-T_SEVEN)/4, T_LAST };",
+     ["T_LOW", "T_MID", "T_HIGH", "T_TOP", "T_PEAK", "T_POS", "T_MIX", "T_SUB", "T_SEVEN", "T_MEM", "T_MEM2", "T_LAST"]),
+    ("enum class Step { FLAT = -1/2, UP, BACK = -3/2, FWD };", ["FLAT", "UP", "BACK", "FWD"]),
 ]
 
 
